@@ -60,6 +60,18 @@ def run(ctx, R):
     R.rule("r3", "TransparentValue deserializes untagged, variants tried in declaration order Null < Int64 < Uint64 < Float64")
     R.rule("r4", "FieldValue <-> TransparentValue conversions are identities on variants and payloads")
     type_text_round_trip(ctx, R)
+    # r6: "returns an equal value" is FieldValue's own equality. The untagged form does not record whether an integer was Int64 or
+    # Uint64 (r3: a small Uint64 reads back as Int64), so the round trip is an identity only because that equality is numeric on
+    # integers - also for integers inside lists. C08's numeric-agreement rules are re-evaluated here as a guard.
+    R.rule("r6", "the equality the round trip is judged by is numeric on integers, also inside lists (C08 r5 / r7 re-evaluated)")
+    from tfv.core import Report
+    from . import C08
+    R8 = Report("C08", ctx.tier, 0)
+    C08.run(ctx, R8)
+    bad8 = [v for v in R8.violations if v["rule"] in ("r5", "r7", "engine")]
+    R.check(not bad8, "r6", "untagged-integers-compare-equal", "-",
+            "an integer that changes representation in the untagged form (Uint64(7) -> 7 -> Int64(7)) no longer compares equal after the "
+            "round trip: %s" % (bad8[0]["msg"][:300] if bad8 else ""), {"c08_instances": len(R8.instances)})
 
     n = 0
     for a in C.adts:
